@@ -248,9 +248,10 @@ def run_list_prop(prop, tier, seed, only_kinds=None, harness_variant='std', coll
                 if j['kind'] == 'raw' and j['variant'] == ('tracked', 'std') and (j.get('random_only') or j['inst'] is INSTANCES['raw'][tier][0]):
                     extra_jobs.append(dict(j, nocb=True))
             jobs += extra_jobs
-        if prop == 'C01' and not inst_limit and harness_variant == 'std' and collect is None:
+        if prop in ('C01', 'C06', 'C07', 'C10', 'C15') and not inst_limit and harness_variant == 'std' and collect is None:
             # a clone is a cache too: the clone-mode traces (clone in every state, then the same operation on both) are
-            # judged with C01 on BOTH observations; first closure instance + one larger random instance per cloneable type
+            # judged with the property on BOTH observations (bounds, policy step, callbacks); first closure instance + one
+            # larger random instance per cloneable type
             for k in ('raw', 'slru', 'wtlfu'):
                 if k in kinds:
                     jobs.append(dict(kind=k, inst=INSTANCES[k][tier][0], variant=('tracked', 'std'), clone_mode=True,
